@@ -177,7 +177,11 @@ func (ci *ChunkInfo) updateChunkInfo(rootCid, overlay boson.Address, bv []byte) 
 		if v == 0 {
 			return
 		}
-		bit, _ := bitvector.NewFromBytes(bv, v)
+		bit, err := bitvector.NewFromBytes(bv, v)
+		if err != nil {
+			ci.logger.Errorf("chunk discover: bit vector of %d bytes for %d chunks", len(bv), v)
+			return
+		}
 		vb = &discoverBitVector{
 			bit:  bit,
 			time: time.Now().Unix(),
